@@ -237,4 +237,10 @@ def releasable (cfg : Cfg) (now : Clock) (r : TokenReq) : Bool :=
       gStr r.code.claims .sub == id && decide (now.sec ≤ gInt r.code.claims .exp) &&
       gStr r.code.claims .redirectUri == r.redirect && gStr r.code.claims .typ == codeType
 
+/-- what the property allows userinfo to answer: `u` only for a deployment-signed `bearer` token of this issuer
+that has not expired at `now` (no grace period), and then the token's own user -/
+def userinfoAllowed (cfg : Cfg) (now : Clock) (tok : Artefact) (u : Str) : Bool :=
+  signedByDeployment cfg.dep tok && gStr tok.claims .typ == accessType && decide (now.sec ≤ gInt tok.claims .exp) &&
+  gStr tok.claims .iss == cfg.dep.issuer && u == gStr tok.claims .username
+
 end KM.Oidc
